@@ -1338,7 +1338,7 @@ def _is_counter(ctx: Ctx, fi: FuncInfo, name: str, depth: int = 0) -> bool:
 @rule('R78', 'a search for an unused name terminates: candidates come from a counter that is part of the name, or a repeated candidate is detected')
 def r78(ctx: Ctx) -> RuleReport:
     from ..resolve import facts_ex
-    rep = RuleReport('R78', r78.title, floor=3)
+    rep = RuleReport('R78', r78.title, floor=2)
     for fi in ctx.repo.all_functions():
         for loop in [n for n in walk_local(fi.node) if isinstance(n, (ast.While, ast.For))]:
             # the loop searches while the candidate is taken:  while X in S   /   for ...: if X not in S: break
